@@ -2,6 +2,7 @@ package effects
 
 import (
 	"fmt"
+	"go/ast"
 	"go/types"
 	"sort"
 	"strings"
@@ -1028,9 +1029,74 @@ func (a *Analysis) RGlobal() []report.Obligation {
 				}
 			}
 			out = append(out, o)
+			// R-EXPORT: package state must not be reachable for writing from outside the package. R-GLOBAL sees the
+			// writes the packages make; an EXPORTED variable can be written (or, if it is a pointer, written through)
+			// by any importer at any time, between any two calls. Harmless only if the packages never read it or
+			// its type holds nothing of theirs (an exported sentinel error).
+			e := report.Obligation{Rule: "R-EXPORT", Key: "R-EXPORT/var:" + load.ShortName0(sp) + n, Config: a.cfg(), Pos: a.P.Rel(g.Pos()), OK: true,
+				Detail: "unexported: no importer can write it or write through it"}
+			if ast.IsExported(n) {
+				vt := g.Type().(*types.Pointer).Elem()
+				mentions := mentionsRepoType(vt, map[types.Type]bool{})
+				read := false
+				for _, f := range a.P.Funcs {
+					if load.IsInitFunc(f) {
+						continue
+					}
+					if fi := a.Info[f]; fi != nil && fi.Sum != nil {
+						for l := range fi.Sum.MayRead {
+							if (l.Root.Kind == KGlobal || l.Root.Kind == KGPointee) && l.Root.Global == g {
+								read = true
+							}
+						}
+					}
+				}
+				isErr := types.Identical(vt, types.Universe.Lookup("error").Type())
+				switch {
+				case mentions:
+					e.OK = false
+					e.Detail = fmt.Sprintf("exported package-level variable of type %s: importers can overwrite it or write through it, so package state (and every later result that reads it) can change between calls, unsynchronised", vt)
+				case read && !isErr:
+					e.OK = false
+					e.Detail = "exported package-level variable that the package's own code reads: importers can change what later calls compute"
+				default:
+					e.Detail = "exported, but holds nothing of the packages' types and is not read by their code (a sentinel value for callers)"
+				}
+			}
+			out = append(out, e)
 		}
 	}
 	return out
+}
+
+// mentionsRepoType: t is, points to, or contains a named type declared in one of the two packages.
+func mentionsRepoType(t types.Type, seen map[types.Type]bool) bool {
+	if seen[t] {
+		return false
+	}
+	seen[t] = true
+	switch u := t.(type) {
+	case *types.Named:
+		if o := u.Obj(); o != nil && o.Pkg() != nil && (o.Pkg().Path() == load.RootPath || o.Pkg().Path() == load.FieldPath) {
+			return true
+		}
+		return mentionsRepoType(u.Underlying(), seen)
+	case *types.Pointer:
+		return mentionsRepoType(u.Elem(), seen)
+	case *types.Slice:
+		return mentionsRepoType(u.Elem(), seen)
+	case *types.Array:
+		return mentionsRepoType(u.Elem(), seen)
+	case *types.Map:
+		return mentionsRepoType(u.Key(), seen) || mentionsRepoType(u.Elem(), seen)
+	case *types.Struct:
+		for i := 0; i < u.NumFields(); i++ {
+			if mentionsRepoType(u.Field(i).Type(), seen) {
+				return true
+			}
+		}
+	}
+	return false
 }
 
 // ---- R-ATOMIC ----------------------------------------------------------------
